@@ -65,6 +65,85 @@ CHECKS = {
     note="Bounds: <=3 relations, <=4 members, 6 member refs incl. relation-in-relation, 9 stream objects; sorted distinct "
          "streams only; MultipolygonManager only through its RelationsManager base; output-buffer flush thresholds not varied.",
     technique="TLA+ spec + TLC refinement check against a set-based model; spec-to-code replay of exported scenarios"),
+
+ "C14": dict(
+    category="model_checking",
+    text="Escaping.tla: A-layer = documented OPL pass-through interval table and %hex% form, XML entity table, structural sets, "
+         "UTF-8, cut-off/invalid as segmentation by lead byte; I-layer = the code's loops (strlen, utf8_sequence_length, length "
+         "check, next_utf8_codepoint masks, nibble-wise hex, opl_parse_string/opl_parse_escaped, append_codepoint_as_utf8, XML byte "
+         "loop) plus expat as environment. TLC: I=>A, exact round trip with the parser stopping before every separator, no "
+         "structural character, injectivity (image set as large as the domain), no over-read, exception <=> cut-off; exported "
+         "table uniform over all 1.1M code points. Replay: every scalar value against the exported table through the real "
+         "escape/parse functions and expat; every exported string (all to length 3/4 over the structural alphabets, interval "
+         "bounds +-1, simulated long strings) call by call and end to end through OPLOutputBlock/opl_parse_line and "
+         "XMLOutputBlock/expat; byte strings of length 1-4 in right-sized heap blocks under ASan against the exported verdict table.",
+    design_ref="DESIGN.md section 4, C14",
+    note="Scalar values exhaustive; strings exhaustive to length 3 (quick) / 4 (thorough) over 11- and 13-symbol structural "
+         "alphabets plus bounds+-1 pairs and <=24-code-point simulated strings. Byte strings: lengths 1-2 all, 3 all in thorough, "
+         "length 4 strided (61 thorough / 4093 quick), NOT all 2^32; all strings over the 14 class-boundary bytes always. The spec "
+         "shows the verdict depends only on the lead-byte class. expat 2.5 stands for 'the XML parser'. The XML round trip fails "
+         "for code points XML 1.0 cannot carry: known finding F14b. Debug escaping is only covered for over-read/exception.",
+    technique="TLA+ spec (A/I layers, TLC exhaustive + simulation); TLC-exported table/behaviours/verdicts replayed on the real functions under ASan+UBSan"),
+ "C20": dict(
+    category="model_checking",
+    text="specs/Dispatch.tla states what every handler is to see (A-layer: per item in iterator order, per handler in "
+         "argument order, generic object callback then exactly the matching callback, one flush per handler; wrapped "
+         "function objects exactly the objects they accept) and models apply_impl's loop nest (type-filtering ItemIterator, "
+         "InputIterator refill, pack expansion, the switch of each apply_item_impl overload, DynamicHandler/wrapper_handler/"
+         "ChainHandler forwarding); specs/DiffIter.tla models DiffIterator's three cursors, set_diff, operator++ and "
+         "apply_diff's handler recursion against 'every version once with its neighbours of the same (type,id), first/last "
+         "exactly at object boundaries'. TLC checks I => A, cursor safety and termination for all item sequences / sorted "
+         "histories within the bounds and exports every case with its log; the harness runs every case on the real "
+         "apply/apply_diff/DiffIterator with real handler objects (14 handler kinds, 10 containers incl. a real Reader, all "
+         "buffer cuts for input iterators) and compares the complete callback log (slot, callback, item by address, "
+         "const-ness / prev, curr, next, first, last, end_time).",
+    design_ref="DESIGN.md section 4, C20",
+    note="Bounds: item sequences <= 2 (quick) / <= 3 (thorough; <= 4 for the Reader) over all 13 item types (+ removed items); "
+         "handler lists: every kind alone, all ordered pairs of 6 kinds, 9 lists of length 3-4 (template combinations are fixed "
+         "at compile time, not all 14^4); histories: 5 keys x <= 3 versions, <= 3 buffers. Named deviations modelled as the code "
+         "has them (handlers inside DynamicHandler/ChainHandler get no osm_object/sub-item callbacks; removed items are "
+         "dispatched; apply_diff has no flush and throws at the first area). Known finding F20c (closure taking const "
+         "memory::Item& is never called) is reported as KNOWN-FINDING. Reader cases limited to node/way/relation/changeset.",
+    technique="TLA+ spec + TLC exhaustive check (refinement invariants, deadlock); spec-to-code replay of all TLC-exported cases with full log comparison"),
+ "C17": dict(
+    category="model_checking",
+    text="specs/GeomFactory.tla models GeometryFactory's loops (unique/all x forward/backward fill loops, add_points, the "
+         "create_multipolygon ring/polygon loop) driving WKBFactoryImpl as written (m_data as typed fields, the four *_size_offset "
+         "registers, m_points/m_rings/m_polygons, set_size back-patching) and the WKT/GeoJSON string builders (token list with the "
+         "overwrite-last-character idiom), with all registers persisting across calls on one factory object, next to the A-layer "
+         "(expected coordinate sequence, ring grouping, minimum point counts, rejection of undefined/invalid locations). TLC checks "
+         "I => A with spec-level decoders that require every count field to equal the elements that follow, for every node list of "
+         "0..5 entries over {p,q,r,undefined,invalid} (0..7 over valid tokens) x modes, every area up to 3 outer x 2 inner rings "
+         "(4x1, 2x3 in thorough), and all histories of 3-4 calls over a small domain. specs/GeomNum.tla models double2string on values "
+         "with an exact decimal expansion for precision 0..17. Every exported input/history is replayed on the real WKB, EWKB, hex, "
+         "WKT, EWKT, GeoJSON (and RapidJSON) factories with identity and Web-Mercator projection; every output is decoded by "
+         "independent readers in the harness and must equal the spec's tree; rejection class compared for degenerate inputs.",
+    design_ref="DESIGN.md section 4, C17",
+    note="Text coordinates of arbitrary doubles are only required to lie within half a unit of the requested digit and to have at "
+         "most that many digits; exact text is compared for values +-(n + k/8) up to 2^28 only (binary->decimal rounding is not "
+         "expressible in TLC). Mercator expectations use osmium's own projection object (its accuracy is C18). Location tokens are "
+         "mapped by three fixed valuations (small, range borders, 7-digit). Area rings are non-empty and assembler-shaped apart from "
+         "injected duplicate/undefined/invalid locations; ring-size validation in create_multipolygon is outside the quantifier. "
+         "Quick tier uses one valuation and one non-default precision per case. GEOS/OGR factories not run (libraries not installed).",
+    technique="TLA+ specs + TLC refinement check (exhaustive small domains, simulation for call histories); spec-to-code replay "
+              "with independent WKB/EWKB/hex/WKT/GeoJSON decoders"),
+ "C12": dict(
+    category="model_checking",
+    text="TLA+ specs IndexMap (A-layer: one partial function id->value, the sort-before-lookup contract, dump contents) + "
+         "IndexDense/IndexSparse/IndexFlexMem/NodeLocWays (I-layers: mmap_vector size/capacity/fill, push_back+std::sort+"
+         "lower_bound, dump_as_array windowing, FlexMem sparse/dense switch with carry-over, m_last_id/m_must_sort); TLC checks "
+         "I=>A exhaustively for all insertion orders with small geometry and on every exported history with the real geometry "
+         "(block 2^16, growth 2^20, window 1310720); histories are replayed on all nine registered map types through MapFactory "
+         "(plus named-file variants, dump->reload via create_map_with_fd, reopen) and on NodeLocationsForWays, every "
+         "get/get_noexcept, dump byte and way location compared with the spec.",
+    design_ref="DESIGN.md section 4, C12",
+    note="ids of a history are distinct; values are insertion ordinals mapped to Locations (first one is Location{0,0}); ids >= "
+         "2^32 are order-preserving tokens; dense types only with ids < 4194304 (memory); most cases run on 6 of the 10 variants "
+         "in rotation, every 8th (quick) / 4th (thorough) on all; FlexMem threshold lowered to 3 by the "
+         "OSMIUM_VERIF_FLEXMEM_MIN_DENSE hook, the real 0xffffff threshold and 1Mi-element mmap growth of sparse indexes only in "
+         "the thorough tier via 3 bulk patterns chosen by TLC at 2^20-id granularity; size()/used_memory()/is_dense() not "
+         "compared; clear() outside the histories; thorough replays a seeded sample of the exported histories.",
+    technique="TLA+ specs + TLC refinement check; behaviour export (BFS and simulation) + step-wise replay on the real code under ASan/UBSan"),
 }
 
 NOT_APPLICABLE = {
